@@ -588,7 +588,7 @@ var jgenInts = []string{
 var jgenOddNums = []string{
 	"-0", "0.5", "-0.5", "1.0", "0.0", "-0.0", "1e2", "1E2", "0e0", "0E1", "-0e1", "1e400", "-1E-2",
 	"1.5e3", "9007199254740992", "-9007199254740992", "9007199254740993", "123456789012345678901234567890",
-	"1e-400", "-0.0e0", "10.25", "-10.25", "0.000", "-1.5", "2E+3",
+	"1e-400", "-0.0e0", "10.25", "-10.25", "0.000", "-1.5", "2E+3", "2.5E-03", "1E-05", "1e-05", "-7E-01", "1.000000E-05", "3e-007",
 	// integer literals far outside the safe range, including values congruent to small numbers
 	// modulo 2^64 / 2^63 / 2^32 (wrap-around in fixed-width parsers)
 	"18446744073709551616", "18446744073709551658", "-18446744073709551617", "36893488147419103232", "36893488147419103233",
@@ -655,6 +655,25 @@ func jgenValue(t *rapid.T, o jgenOpts, depth int, label string) jv {
 	default:
 		return jv{K: k}
 	}
+}
+
+// jgenWrap nests a value inside arrays / objects (arrays of arrays of objects and the like are
+// rare under uniform generation but matter to code with per-level fast paths).
+func jgenWrap(t *rapid.T, v jv, label string) jv {
+	n := rapid.IntRange(0, 3).Draw(t, label+"_wrapN")
+	for i := 0; i < n; i++ {
+		switch rapid.IntRange(0, 4).Draw(t, label+"_wrapK") {
+		case 0, 1:
+			v = jarr(v)
+		case 2:
+			v = jarr(jstr("x"), v)
+		case 3:
+			v = jarr(v, jnum(int64(i)))
+		default:
+			v = jobj("z", jnum(1), "a", v)
+		}
+	}
+	return v
 }
 
 func jgenObject(t *rapid.T, o jgenOpts, depth int, label string) jv {
